@@ -10,7 +10,8 @@ def contig_length(w):
 
 
 def genome(w, nmax=12):
-    n = weighted(w, [(1, 2), (2, 3), (3, 3), (w.randint(4, 6), 3), (w.randint(7, nmax), 1)])
+    n = weighted(w, [(1, 2), (2, 3), (3, 3), (w.randint(4, 6), 3), (w.randint(7, max(7, nmax)), 1)])
+    n = min(n, nmax)
     return [[f'ctg{i}' if w.random() < 0.8 else f'chrUn_{i}', contig_length(w)] for i in range(n)]
 
 
